@@ -15,6 +15,8 @@ DiagOK == (Rec.op = "diag" /\ Done) =>
     /\ \A j \in 1..Len(Gates) : Herm(Gates[j].g) /\ Len(Gates[j].qs) = NQ(Gates[j].g)
     /\ (Rec.causal = FALSE) => PlusMinusZ(Forward(Gates, P), Rec.i0, n)     \* causal mode: see CausalOK
     /\ Dec(Rec.fwd) = Forward(Gates, P)                   \* what circ.forward really returned
+\* diagonalize() is a query: the operator it was given is as before
+DiagFrameOK == (Rec.op = "diag" /\ Done /\ Has("p1")) => Rec.p1 = Rec.p
 \* causal mode: only qubits i0.. are touched; the part of the operator supported there becomes Z_i0
 CausalOK == (Rec.op = "diag" /\ Done /\ Rec.causal = TRUE) =>
     LET P == Dec(Rec.p)  n == NQ(P)  i0 == Rec.i0
